@@ -10,25 +10,28 @@ CHECKS = {
         "crate": "light",
         "bin": "c03_coalesce",
         "level": "exploration",
-        "rule": "one run = one seeded producer/consumer history over a BatchCoalescer (pushes with/without filter or indices, finishes, "
-                "limit changes, drains at tape-chosen moments) checked step by step against a row-level reference model; a run is non-trivial "
-                "when it executed at least one push; distinct = distinct hash of (op sequence, per-op row counts, filter class, target, limit)",
-        "required_probes": ["probe.coalesce.sparse_copy", "probe.coalesce.materialised_filter", "probe.coalesce.bypass_history"],
+        "rule": "scenario coalesce_history: one run = one seeded producer/consumer history over a BatchCoalescer (pushes with/without filter or indices, finishes, limit changes, drains at tape-chosen "
+                "moments) checked step by step against a row-level reference model; scenario pipeline: one run = one history of 3-12 selection kernels (slice, filter, take, concat, interleave, zip, nullif, "
+                "shift) over a pool of arrays of one generated type - every result is validated, compared with the row-by-row definition and put back into the pool, so the physical layouts one kernel "
+                "produces (sliced, offset children, merged dictionaries) are the next kernel's input; a run is non-trivial when it executed at least one operation; distinct = distinct hash of (op sequence, "
+                "per-op row counts, filter class, target, limit)",
+        "required_probes": ["probe.coalesce.sparse_copy", "probe.coalesce.materialised_filter", "probe.coalesce.bypass_history", "probe.pipeline.interleave", "probe.pipeline.zip", "probe.pipeline.nullif", "probe.pipeline.shift"],
         "components": {
-            "real": ["arrow_select::coalesce::BatchCoalescer and its InProgressArray implementations", "filter / take_record_batch / concat as reached from the coalescer"],
-            "stub": ["producer and consumer tasks (seeded scheduler decides pushes vs drains)"],
-            "not_run": ["interleave, zip, merge, nullif, shift, dictionary GC (pure kernels; first sentence of C03 is not decided by this technique)"],
+            "real": ["arrow_select::coalesce::BatchCoalescer and its InProgressArray implementations", "arrow_select::{filter, take, concat, interleave, zip, nullif, window::shift} and Array::slice, over every generated type (nested, dictionary, view, decimal, ...)"],
+            "stub": ["producer and consumer tasks (seeded scheduler decides pushes vs drains)", "the operator pipeline (seeded choice of operator, operands, predicates, indices)"],
+            "not_run": ["merge, dictionary garbage collection, the record-batch forms other than through the coalescer", "union and run-end encoded operands in the pipeline"],
         },
-        "level_text": "seeded exploration of producer/consumer histories of the stateful BatchCoalescer against an executable row-level reference model, "
-                      "checked after every step (observers) and over the whole history (conservation, order, batch sizes); sampling, not proof",
-        "design_ref": "DESIGN.md section 4 (C03)",
-        "level_note": "decides only the coalescer-history sentence of C03; per-kernel equivalence for filter/take/concat is exercised only on the paths the coalescer takes; "
+        "level_text": "seeded exploration of producer/consumer histories of the stateful BatchCoalescer and of operator-pipeline histories of the selection kernels against an executable row-level reference "
+                      "model, checked after every step (observers, validity, rows) and over the whole history (conservation, order, batch sizes); sampling, not proof",
+        "design_ref": "DESIGN.md section 4 (C03), section 11.7",
+        "level_note": "the coalescer sentence of C03 is a history property proper; the per-kernel sentence is a pure-function claim that this technique does not decide in general - the pipeline scenario checks the "
+                      "kernels only along seeded operation histories (inputs are whatever earlier kernels produced), without any claim of covering their type x selectivity space; "
                       "trusted: in-tree simulator, value extraction through arrow's safe accessors, ArrayData::validate_full",
-        "technique": "deterministic simulation: seeded producer/consumer schedule over a stateful buffer, reference-model refinement check, tape replay + shrinking",
+        "technique": "deterministic simulation: seeded producer/consumer schedule over a stateful buffer and seeded operator histories over a pool of arrays, reference-model refinement check after every step, tape replay + shrinking",
         "assumptions": TRUSTED + [
             "ArrayData::validate_full is trusted as the validity oracle for emitted batches",
-            "only the coalescer-history sentence of C03 is decided; per-kernel row-by-row equivalence is a pure-function claim",
             "8-bit dictionary keys are excluded: concat may legitimately fail with a key-overflow error",
+            "a null index / null predicate / shifted-in slot denotes a null row; union and Null-typed operands (which have no such row) are excluded from the pipeline",
         ],
     },
     "C04": {
